@@ -30,8 +30,12 @@ def _build(case):
     for spec in case['ifaces']:
         parts = [I.Method(m['name'], m['in'], m['out']) for m in spec['methods']]
         parts += [I.Signal(s['name'], s['sig']) for s in spec['signals']]
-        parts += [I.Property(p['name'], p['sig'], p['r'], p['w'], {'true': True, 'false': False}.get(p['emits'], 'invalidates'))
-                  for p in spec['props']]
+        for p in spec['props']:
+            if p['r'] and not p['w'] and p['emits'] == 'true':
+                parts.append(I.Property(p['name'], p['sig']))      # the documented defaults
+            else:
+                parts.append(I.Property(p['name'], p['sig'], p['r'], p['w'],
+                                        {'true': True, 'false': False}.get(p['emits'], 'invalidates')))
         if case.get('incremental') and parts:
             # define the interface step by step, reading its XML in between (the XML is cached per interface)
             iface = I.DBusInterface(spec['name'], noRegister=True)
@@ -119,6 +123,8 @@ def run_case(case):
             parsed = X.getInterfacesFromXML(xml, case['replace'])
         except Exception as e:
             return out + [Disc(exc_key(e, 'parse.raises'), exc_detail(e) + '\n' + xml[:500])]
+        if not isinstance(parsed, list):
+            return out + [Disc('parse.result-not-a-list', 'getInterfacesFromXML returned %r' % (parsed,))]
         pmap = {}
         for pi in parsed:
             pmap.setdefault(pi.name, []).append(pi)
@@ -138,15 +144,16 @@ def run_case(case):
                 out.append(Disc('parse.not-registered', spec['name']))
             wantm = {m['name']: (m['in'], m['out'], len(R.split_signature(m['in'])), len(R.split_signature(m['out'])))
                      for m in spec['methods']}
-            gotm = {n: (m.sigIn, m.sigOut, m.nargs, m.nret) for n, m in pi.methods.items()}
+            g = getattr
+            gotm = {n: (g(m, 'sigIn', '?'), g(m, 'sigOut', '?'), g(m, 'nargs', '?'), g(m, 'nret', '?')) for n, m in pi.methods.items()}
             if gotm != wantm:
                 out.append(Disc('parse.methods', 'expected %r got %r' % (wantm, gotm)))
             wants = {s['name']: (s['sig'], len(R.split_signature(s['sig']))) for s in spec['signals']}
-            gots = {n: (s.sig, s.nargs) for n, s in pi.signals.items()}
+            gots = {n: (g(s, 'sig', '?'), g(s, 'nargs', '?')) for n, s in pi.signals.items()}
             if gots != wants:
                 out.append(Disc('parse.signals', 'expected %r got %r' % (wants, gots)))
             wantp = {p['name']: (p['sig'], _norm_access(p['r'], p['w'])) for p in spec['props']}
-            gotp = {n: (p.sig, p.access) for n, p in pi.properties.items()}
+            gotp = {n: (g(p, 'sig', '?'), g(p, 'access', '?')) for n, p in pi.properties.items()}
             if gotp != wantp:
                 out.append(Disc('parse.properties', 'expected %r got %r' % (wantp, gotp)))
         if out:
